@@ -528,7 +528,7 @@ Proof.
   - fold d in Ed'. rewrite St in Ed'. clear SW.
     destruct I2 as [[Dc Fc Cc] Wc]. rewrite Ecur in Dc, Cc, Wc. fold d in Dc, Cc, Wc.
     assert (Ed2 : d' = mkDoc Alive (d_body d) (N.succ (clk s2))
-                         (Some (mkSync (s_cas sy) (s_crc sy) (s_cv sy) (s_hist sy) (N.succ (nseq s))))
+                         (Some (mkSync (s_cas sy) (s_crc sy) (s_cv sy) (s_hist sy) (N.succ (nseq s)) false))
                          (d_vv d) (Some (mkMou (N.succ (clk s2)) (mou_pcas d)))) by (subst d'; reflexivity).
     assert (Dd' : DocInv (N.succ (clk s2)) d').
     { rewrite Ed2. eapply keep_DocInv; eauto; try lia; try congruence.
@@ -578,6 +578,47 @@ Proof.
   - rewrite nth_overflow in NA by lia. cbn in NA. congruence.
 Qed.
 
+(* attachment-metadata migration on the delivery of a gateway-write event: guarded by the event's CAS, so it can
+   only rewrite the very document the event describes, which is an own write *)
+Lemma migrate_ok ev sy s : Inv s -> Snap s ev -> d_sync ev = Some sy ->
+  sd_is_sg_write sy (d_cas ev) (body_crc ev) (d_vv ev) = true ->
+  Inv (migrate crc ev sy s) /\ mono s (migrate crc ev sy s) /\
+  (migrate crc ev sy s = s \/
+   (ev = doc s /\ own (doc s) = true /\ own (doc (migrate crc ev sy s)) = true /\
+    hist_of (doc (migrate crc ev sy s)) = hist_of (doc s) /\ bstate (doc (migrate crc ev sy s)) = bstate (doc s))).
+Proof.
+  intros HI Se Es SG. unfold migrate.
+  destruct ((d_cas (doc s) =? d_cas ev) && is_alive (doc s)) eqn:C;
+    [|split; [exact HI|split; [apply mono_refl|left; reflexivity]]].
+  apply andb_true_iff in C. destruct C as [C A]. apply N.eqb_eq in C.
+  assert (Ee : ev = doc s) by (apply (Snap_cas_eq crc delcrc); auto). subst ev.
+  set (d := doc s) in *. destruct HI as [[D F Cn] W]. fold d in D, Cn, W.
+  assert (O : own d = true) by (unfold ImportInv.own; rewrite Es; exact SG).
+  assert (St : d_st d = Alive) by (apply is_alive_true; auto).
+  pose proof (own_crc crc delcrc _ _ _ D Es) as OC. rewrite O in OC. symmetry in OC. apply N.eqb_eq in OC.
+  unfold Import.body_crc in OC. rewrite A in OC.
+  destruct (di_sync _ _ _ _ D _ Es) as (A1 & (v & Ev & Hv) & A3 & (r & t & Eh & Hc) & A5).
+  set (d' := mkDoc Alive (d_body d) (N.succ (clk s))
+                   (Some (mkSync (N.succ (clk s)) (crc (d_body d)) (s_cv sy) (s_hist sy) (s_seq sy) false))
+                   (d_vv d) (Some (mkMou (N.succ (clk s)) (s_cas sy)))).
+  assert (D' : DocInv (N.succ (clk s)) d').
+  { constructor; cbn; try lia; try congruence.
+    intros sy2 E2. inversion E2; subst sy2; clear E2. cbn.
+    split; [lia|]. split; [eauto|]. split; [auto|]. split; [exists r, t; split; auto; congruence|].
+    intros _. reflexivity. }
+  assert (O' : own d' = true).
+  { unfold ImportInv.own, sd_is_sg_write. cbn. rewrite N.eqb_refl. reflexivity. }
+  split; [|split].
+  - split.
+    + apply commit_Inv0; [constructor; auto | reflexivity | exact D' |].
+      rewrite pend_own by auto. lia.
+    + cbn [wb set_doc doc]. rewrite W. unfold bstate. cbn. congruence.
+  - repeat split; cbn; lia.
+  - right. split; auto. split; auto. split; [exact O'|]. split.
+    + unfold hist_of. cbn. fold d. rewrite Es. reflexivity.
+    + unfold bstate. cbn. fold d. congruence.
+Qed.
+
 Lemma gw_feed_ok k s : Inv s -> forall s' r, gw_feed true crc delcrc fire k s = (s', r) -> Inv s' /\ mono s s'.
 Proof.
   intros HI s' r E. unfold gw_feed in E.
@@ -595,18 +636,24 @@ Proof.
     assert (T : is_tomb ev = false) by (unfold is_tomb; rewrite St; reflexivity).
     assert (A : negb (is_alive ev) = false) by (unfold is_alive; rewrite St; reflexivity).
     rewrite T in E. cbn [andb] in E.
-    destruct (d_sync ev) as [sy|].
-    + destruct (sd_is_sg_write sy (d_cas ev) (body_crc ev) (d_vv ev)); [eapply Triv; eauto|].
-      eapply (Run false); eauto; congruence.
+    destruct (d_sync ev) as [sy|] eqn:Es.
+    + destruct (sd_is_sg_write sy (d_cas ev) (body_crc ev) (d_vv ev)) eqn:SG.
+      * inversion E; subst s' r. destruct (s_att sy); [|split; auto using mono_refl].
+        destruct (migrate_ok ev sy s HI) as (A1 & A2 & _); auto.
+        apply nth_Snap; auto. fold ev. rewrite St. discriminate.
+      * eapply (Run false); eauto; congruence.
     + eapply (Run false); eauto; congruence.
   - (* tombstone *)
     assert (T : is_tomb ev = true) by (unfold is_tomb; rewrite St; reflexivity).
     assert (A : negb (is_alive ev) = true) by (unfold is_alive; rewrite St; reflexivity).
     rewrite T in E. cbn [andb] in E.
     destruct (no_xattrs ev); [eapply Triv; eauto|].
-    destruct (d_sync ev) as [sy|]; [|eapply Triv; eauto].
-    destruct (sd_is_sg_write sy (d_cas ev) (body_crc ev) (d_vv ev)); [eapply Triv; eauto|].
-    eapply (Run true); eauto; congruence.
+    destruct (d_sync ev) as [sy|] eqn:Es; [|eapply Triv; eauto].
+    destruct (sd_is_sg_write sy (d_cas ev) (body_crc ev) (d_vv ev)) eqn:SG.
+    + inversion E; subst s' r. destruct (s_att sy); [|split; auto using mono_refl].
+      destruct (migrate_ok ev sy s HI) as (A1 & A2 & _); auto.
+      apply nth_Snap; auto. fold ev. rewrite St. discriminate.
+    + eapply (Run true); eauto; congruence.
 Qed.
 
 (* ================= external operations ================= *)
@@ -678,6 +725,28 @@ Proof.
   - subst d'. repeat split; cbn; lia.
 Qed.
 
+Lemma legacy_write_ok s b : Inv s -> forall s' r, legacy_write crc s b = (s', r) -> Inv s' /\ mono s s'.
+Proof.
+  intros HI s' r E. unfold legacy_write in E.
+  destruct (d_st (doc s)) eqn:St; try (inversion E; subst; split; auto using mono_refl; fail).
+  inversion E; subst s' r; clear E.
+  set (nc := N.succ (clk s)). set (seq := N.succ (nseq s)).
+  set (d' := mkDoc Alive b nc (Some (mkSync nc (crc b) nc [R 1 0 false b] seq true)) (Some (mkVV nc nc)) None).
+  assert (D' : DocInv nc d').
+  { constructor; cbn; try lia; try congruence.
+    intros sy2 E2. inversion E2; subst sy2; clear E2. cbn.
+    split; [lia|]. split; [eauto|]. split; [auto|]. split; [eexists _, _; split; reflexivity|].
+    intros _. reflexivity. }
+  assert (O' : own d' = true).
+  { unfold ImportInv.own, sd_is_sg_write. cbn. rewrite N.eqb_refl. reflexivity. }
+  split.
+  - apply Inv_set_wb; [|reflexivity].
+    apply (commit_Inv0 (set_nseq s seq) d'); auto.
+    + apply (Inv_set_nseq s seq HI).
+    + rewrite pend_own by auto. lia.
+  - repeat split; cbn; lia.
+Qed.
+
 Lemma simple_step_ok o s : Inv s ->
   forall s' r, simple_step true crc delcrc fire o s = (s', r) -> Inv s' /\ mono s s'.
 Proof.
@@ -685,6 +754,7 @@ Proof.
   - inversion E; subst. apply ext_set_ok; auto.
   - eapply ext_del_ok; eauto.
   - eapply ext_touch_ok; eauto.
+  - eapply legacy_write_ok; eauto.
   - destruct (gw_put_ok (Some b) s HI _ _ E) as (A & B & _). auto.
   - destruct (gw_put_ok None s HI _ _ E) as (A & B & _). auto.
   - eapply gw_meta_ok; eauto.
